@@ -617,7 +617,7 @@ class World:
             obs["outcome"] = None
             return obs
         shape = f"{'doc' if b.get('documented') else 'undoc'}:{b.get('source')}:{inst.classify(self._resp_schema(op, st), self.doc) if b.get('documented') and self._resp_schema(op, st) else '-'}"
-        self.states.add(f"resp|{shape}|{'enum' if st not in NON_ENUM_STATUSES else 'non-enum'}|raise={raise_flag}|{prep['variant']}|{'async' if prep.get('async') else 'sync'}")
+        self.states.add(f"resp|{shape}|{'enum' if st not in NON_ENUM_STATUSES else 'non-enum'}|raise={raise_flag}|{prep['variant']}|{prep.get('mode') or ('async' if prep.get('async') else 'sync')}|{st}|{str(b.get('media_type')).split(';')[0].lower()}|{'slow' if b.get('latency') else 'fast'}")
         reason = self.pkg.declined_responses.get((op["method"].upper(), op["path"]), {}).get(st)
         if b.get("documented") and reason is not None:
             # The workload only documents responses of supported media types with schemas the generator supports, so a
